@@ -5,6 +5,7 @@ use crate::common::{Ctx, Report};
 mod c02fm;
 mod c08fm;
 mod c11;
+mod c16;
 pub mod c13fm;
 
 pub fn dispatch(ctx: &Ctx, rep: &mut Report) {
@@ -131,6 +132,7 @@ pub fn dispatch(ctx: &Ctx, rep: &mut Report) {
                 crate::onris::c17::run(ctx, rep);
             }
         },
+        "C16" => c16::run(ctx, rep),
         other => {
             eprintln!("unknown check {other}");
             std::process::exit(3);
